@@ -104,7 +104,7 @@ Lemma customize_simple_shape : forall s c kw s' n,
     lookup s c = Some r /\ c_kind r = KSimple fam /\
     (match fam with FDecimal => decimal_pre s c kw | _ => ROk kw end) = ROk kw1 /\
     (ex = None \/ ex = Some (Some c)) /\
-    (s', n) = alloc s (mkcls (KSimple fam) (Some c) (apply_kwargs kw1 (fresh_attrs s c)) tn
+    (s', n) = alloc s (mkcls (KSimple fam) (Some c) (apply_kwargs (eff_kw s kw1) (fresh_attrs s c)) tn
                              (Some (orig_or_self r c)) ex []).
 Proof.
   unfold customize_simple. intros.
@@ -121,7 +121,7 @@ Lemma customize_simple_derived : forall s c kw s' n,
 Proof.
   intros. destruct (customize_simple_shape _ _ _ _ _ H) as [r [fam [kw1 [tn [ex [L [K [D [X A]]]]]]]]].
   unfold derived. assert (S' : s' = fst (alloc s (mkcls (KSimple fam) (Some c)
-     (apply_kwargs kw1 (fresh_attrs s c)) tn (Some (orig_or_self r c)) ex []))) by (rewrite <- A; auto).
+     (apply_kwargs (eff_kw s kw1) (fresh_attrs s c)) tn (Some (orig_or_self r c)) ex []))) by (rewrite <- A; auto).
   assert (N : n = size s) by (unfold alloc in A; inversion A; auto).
   subst n. split; auto. split; [subst s'; apply size_alloc |].
   split; [subst s'; apply ext_alloc |]. split.
@@ -144,7 +144,7 @@ Lemma customize_plain_shape : forall s c kw s' n,
   exists r t0 tnm,
     lookup s c = Some r /\ is_simple (c_kind r) = false /\ get_tname s c = Some t0 /\
     n = size s /\
-    let r' := mkcls (c_kind r) (Some c) (apply_kwargs kw (fresh_attrs s c)) (Some tnm)
+    let r' := mkcls (c_kind r) (Some c) (apply_kwargs (eff_kw s kw) (fresh_attrs s c)) (Some tnm)
                     (Some (orig_or_self r c)) (Some (get_extends s c)) (c_fields r) in
     let s2 := set_dca (fst (alloc s r')) (size s)
                       (match zassoc c (dca s) with Some d => d | None => [] end) in
@@ -168,7 +168,7 @@ Lemma customize_plain_derived : forall s c kw s' n,
 Proof.
   intros. destruct (customize_plain_shape _ _ _ _ _ H) as [r [t0 [tnm [L [K [T [N S']]]]]]].
   cbv zeta in S'. subst n. pose proof (lookup_some _ _ _ L) as B.
-  set (r' := mkcls (c_kind r) (Some c) (apply_kwargs kw (fresh_attrs s c)) (Some tnm)
+  set (r' := mkcls (c_kind r) (Some c) (apply_kwargs (eff_kw s kw) (fresh_attrs s c)) (Some tnm)
                    (Some (orig_or_self r c)) (Some (get_extends s c)) (c_fields r)) in *.
   set (s1 := fst (alloc s r')) in *.
   set (s2 := set_dca s1 (size s) (match zassoc c (dca s) with Some d => d | None => [] end)) in *.
@@ -521,6 +521,38 @@ Proof.
     + apply NoDup_od_update. constructor.
 Qed.
 
+(** * calling a primitive: T(kw) *)
+Lemma bytearray_new_ok : forall s c kw s' n,
+  inv s -> bytearray_new s c kw = ROk (s', n) -> extended s c s' n.
+Proof.
+  unfold bytearray_new. intros s c kw s' n I H.
+  destruct (zassoc K_ENCODING kw) as [v |].
+  - destruct (enc_norm v) as [[e tn] |]; try discriminate.
+    rdesp H as s1 n1 Q. inversion H; subst. clear H.
+    pose proof (customize_simple_derived _ _ _ _ _ Q) as D.
+    destruct (derived_extended _ _ _ _ I D) as [A [B [C [E F]]]].
+    destruct tn as [t |]; [| unfold extended; auto].
+    subst n. pose proof (size_nonneg s) as NN.
+    destruct (lookup_lt_some s1 (size s)) as [r1 L1]; [lia |].
+    assert (X : ext (size s) s1 (upd s1 (size s) (set_tname (TStr t)))).
+    { apply ext_upd; [lia | intros; apply static_set_tname]. }
+    unfold extended. split; [reflexivity | split; [rewrite size_upd; lia | split; [| split]]].
+    + apply inv_upd; [exact C | intros; apply cls_ok_set_tname; auto | intros; apply static_set_tname].
+    + eapply ext_trans; eauto.
+    + rewrite <- F. eapply root_of_ext; eauto.
+  - apply derived_extended; auto. eapply customize_simple_derived; eauto.
+Qed.
+
+Lemma call_simple_ok : forall s c kw s' n,
+  inv s -> call_simple s c kw = ROk (s', n) -> extended s c s' n.
+Proof.
+  unfold call_simple. intros s c kw s' n I H.
+  destruct (lookup s c) as [r |]; try discriminate.
+  destruct (c_kind r) as [[| | |] | |]; try discriminate;
+    try (apply derived_extended; [exact I | eapply customize_simple_derived; exact H]).
+  eapply bytearray_new_ok; eauto.
+Qed.
+
 Local Opaque FUEL.
 
 (** * one derivation step *)
@@ -535,6 +567,8 @@ Proof.
     destruct (make_array_ok _ _ _ _ _ _ I Q) as [A [B [C [E _]]]]. subst. auto.
   - rdesp H as s1 n Q. inversion H; subst.
     destruct (mandatory_ok _ _ _ _ _ I Q) as [A [B [C [E _]]]]. subst. auto.
+  - rdesp H as s1 n Q. inversion H; subst.
+    destruct (call_simple_ok _ _ _ _ _ I Q) as [A [B [C [E _]]]]. subst. auto.
   - rdesp H as s1 n Q. inversion H; subst.
     destruct (subclass_ok _ _ _ _ _ _ I Q) as [A [B [C E]]]. subst. auto.
 Qed.
